@@ -1036,6 +1036,8 @@ func runCase(id string, cs Case) string {
 	}
 }
 
+var routingLookups atomic.Int64 // lookups recomputed by the routing model in the driver
+
 var (
 	progress     atomic.Int64 // bumped whenever a handler is entered or a request completes
 	slowDiscards atomic.Int64
@@ -1223,6 +1225,43 @@ func runHistory(id string, cs Case) string {
 		l.Str(o.q.Accept)
 	}
 	l.Strs(probeNames)
+	// the registered routes and, for every request whose parameters come from a radix-tree lookup (main tree or a
+	// version tree), the lookup itself: the driver recomputes the parameter writes with the routing model
+	// (Model/Radix, the model C01's theorems are about) and compares them with the steps predicted above
+	var act []routeDef
+	for _, d := range table {
+		if active(d, cs.C) {
+			act = append(act, d)
+		}
+	}
+	l.Nat(len(act))
+	for _, d := range act {
+		l.Str(d.method).Str(d.ver).Str(d.pattern).Str(d.intParam)
+	}
+	type lk struct {
+		out         int
+		method, ver string
+		path        string
+	}
+	var lks []lk
+	for k, o := range outs {
+		path, _, _ := predictSteps(cs.C, o.q, o.idx)
+		switch path {
+		case "mainTreeTail":
+			lks = append(lks, lk{k, o.q.Method, "", o.q.Path})
+		case "versionedRequest.tail":
+			ver := detect(o.q)
+			if !hasTree(cs.C, o.q.Method, ver) {
+				ver = defaultVersion
+			}
+			lks = append(lks, lk{k, o.q.Method, ver, o.q.Path})
+		}
+	}
+	routingLookups.Add(int64(len(lks)))
+	l.Nat(len(lks))
+	for _, x := range lks {
+		l.Nat(x.out).Str(x.method).Str(x.ver).Str(x.path)
+	}
 	l.Sep()
 	if panicked {
 		l.Tok("P")
@@ -1669,6 +1708,7 @@ func main() {
 			st.Counters["concurrent-negotiation-requests"] += served
 			st.Case(fmt.Sprintf("%+v#%d", cs, k), true)
 		}
+		st.Counters["tree-lookups-recomputed-by-the-routing-model"] = int(routingLookups.Load())
 		if n := slowDiscards.Load(); n > 0 {
 			st.Counters["discarded:slow-but-progressing-history(overloaded machine)"] = int(n)
 		}
